@@ -10,15 +10,23 @@ SPEC = {
                  'C27_rejected_no_effect_refuted', 'C27_rejected_no_effect_partial', 'C27_rejected_no_effect_nonvacuous',
                  'C27_no_poison_refuted', 'C27_no_poison_partial', 'C27_no_poison_nonvacuous',
                  'C27_rejected_invisible_refuted', 'C27_rejected_invisible_partial', 'C27_rejected_invisible_nonvacuous',
-                 'C27_orphan_siblings_connected', 'C27_no_panic', 'C27_nil_fork_refused',
-                 'C27_valid_refines_C25', 'C27_valid_refines_nonvacuous'],
+                 'C27_orphan_siblings_connected',
+                 'C27_no_panic_refuted', 'C27_no_panic_partial', 'C27_no_panic_nonvacuous',
+                 'C27_plain_header_same', 'C27_odd_header_chain_unchanged', 'C27_nil_fork_refused',
+                 'C27_valid_refines_C25', 'C27_valid_refines_nonvacuous',
+                 'C27_sig_pool_refuted', 'C27_sig_pool_partial', 'C27_block_signature_any_pool',
+                 'C27_sig_pool_nonvacuous', 'C27_validity_independent_of_pool'],
     'allowed_axioms': [],
     'shard': 16,
     'rule': 'a factory test node builds an executed block tree (trunk t1..t14, branch S off t11 with a heavy s13, branch R '
             'r12..r15 off t11, branch U off t2; 3 transactions per block) and, for 5 target blocks (t3, t13, s13, r13, u3), '
             'every mutation: same-hash bodies (tx replaced, reordered, duplicated, tx of an ancestor, broken tx signature, '
             'foreign tx signature, block signature) and new-hash blocks (state root, tx root, height, parent, time lower / '
-            'higher, difficulty, version, tx dropped / added / duplicated tail / none, heavy + bad state root). The validity '
+            'higher, difficulty, version, tx dropped / added / duplicated tail / none, heavy + bad state root; every header '
+            'field at its EMPTY value: TxHash nil, StateHash nil, ParentHash nil, ParentHash all-zero, Height 0, Height 0 + '
+            'all-zero parent (a second genesis block), BlockTime 0, Difficulty 0 (Version is 0 in genuine blocks); block '
+            'signatures - garbage, one bit altered, truncated, made by another key, and a valid one - on the block as it is '
+            'and on a copy without transactions whose roots are right). The validity '
             'class of every (header, body) pair is computed by the harness without the node\'s checks (signatures one by one, '
             'duplicate search in body and ancestor bodies, unchecked re-execution on the factory and comparison of both '
             'roots, block time and emptiness). Each history goes to a fresh node (memdb, every 8th leveldb) through '
@@ -26,12 +34,21 @@ SPEC = {
             'then its child; B mutant as unexecuted side block, genuine block, branch overtakes; C mutant heavy enough to '
             'reorganise; D mutant waiting as orphan in front of / behind the genuine block and its child (new-hash mutants: '
             'guarded, ProcessOrphans must drop them and go on); E orphan cascade; H download-path node deleted under its child; '
-            '(kinds guarded/...-refused-header: wrong height / unknown parent, never executed); F guarded random histories (genuine blocks in near-order with gaps and re-deliveries plus new-hash mutants '
+            '(kinds guarded/...-refused-header: wrong height / unknown parent, never executed); S block-signature bodies at the '
+            'tip of receivers that (a) do not know the block\'s transactions, (b) hold all of them in the mempool (offered '
+            'through the API right before the delivery; the harness asks the mempool by EventCheckTxsExist what it holds '
+            'before every delivery), (c) on the block without transactions - then the genuine block and its child; validly '
+            'signed copies; pooled header mutants; T the signature stage alone (case CSig): one block on the genesis block of '
+            'a fresh node with chosen transaction signatures altered (root re-declared), block signature none / valid / '
+            'altered / truncated / other key / garbage, chosen genuine transactions (and a foreign one) in the mempool, '
+            'optionally a wrong state root behind - the harness verifies every signature one by one, observed are the error '
+            'class and whether the tip moved; F guarded random histories (genuine blocks in near-order with gaps and re-deliveries plus new-hash mutants '
             'below the margin, in half of the histories waiting in the orphan pool for t2); G unrestricted random histories. Observed per delivery: (isMain, '
             'isOrphan, error class incl. panic), tip, its total difficulty, body served under the delivered hash; at the '
             'end hash at every height, body served under every hash of the case, GetTx of every known transaction, '
             'genesis account at the tip state vs the factory. kinds are prefixed guarded/ (inputs inside the guards of '
-            'the partial theorems: any spec failure is a violation) or unrestricted/. non-trivial = some delivery was '
+            'the partial theorems: any spec failure is a violation), unrestricted/ or sig/; a history that delivers a block '
+            'with an empty ParentHash is always unrestricted/ (finding 5). non-trivial = some delivery was '
             'rejected by a validity check; distinct = distinct Gallina case terms',
     'trusted_base': [
         'the validity oracle verr(hash, body): in Coq a function parameter of the model; on the Go side computed by the '
@@ -43,19 +60,34 @@ SPEC = {
         'index nodes are identified by hash; DelNode is modelled by removing the node and marking its children '
         '(a node object re-created under a deleted hash is not distinguished from the deleted object)',
         'difficulty.CalcWork (C20) gives the per-block work',
+        'the all-zero and the empty parent hash are two reserved ids of the universe (zero_par, empty_par); no block has '
+        'one of them as its own hash; the receiving node started on an empty database, so its index holds the pre-genesis '
+        'node (zero hash, height -1)',
+        'signature stage: whether a signature verifies is an input (the harness calls types.CheckSign / '
+        'Transaction.CheckSign one by one); transactions are identified by Transaction.Hash(), which does not cover the '
+        'signature; what the mempool holds is read from the mempool itself',
     ],
     'assumptions': [
         'finalized height constant (0); enableBestBlockCmp off; main chain (not para); consensus may roll back',
         'no orphan expiry / index eviction (fewer than 10240 orphans, 102400 index nodes, histories shorter than 10 minutes)',
-        'deliveries are sequential; the mempool of the receiving node is empty (no signature-check shortcut)',
+        'deliveries are sequential; in the histories the mempool of the receiving node is empty or holds validly signed '
+        'transactions of genuine blocks only, and no delivered block carries an altered copy of a pooled transaction (the '
+        'signature-check shortcut, finding 6, is exercised by the signature-stage cases only)',
         'solo consensus: CheckBlock only refuses empty blocks and a block time below the parent\'s',
     ],
     'manifest': {
-        'level_text': 'partial: the node violates the property in two recorded ways (stored body + index node of a '
-                      'failed block poison the genuine block; a failing reorganisation is not rolled back); two more '
+        'level_text': 'partial: the node violates the property in four recorded ways (stored body + index node of a '
+                      'failed block poison the genuine block; a failing reorganisation is not rolled back; a block with an '
+                      'empty ParentHash makes ProcessBlock panic; a transaction signature is not verified when the mempool '
+                      'holds a transaction with the same hash); two more '
                       '(ProcessOrphans stopped at the first refused orphan; nil fork after DelNode made ProcessBlock panic) '
-                      'are repaired in chain33 and modelled as repaired. Proved for all histories and states: ProcessBlock '
-                      'does not panic; proved for all histories: the best chain only holds blocks whose '
+                      'are repaired in chain33 and modelled as repaired. Proved for all states: ProcessBlock '
+                      'does not panic on a block that names a parent (any height, all-zero parent included), and a block with '
+                      'an empty / all-zero parent or height 0 leaves the best chain unchanged; the signature stage refuses a '
+                      'block signature that does not verify whatever the mempool holds (all, some, none of the block\'s '
+                      'transactions, or a block without transactions) and agrees with "all signatures verify" whenever the '
+                      'pooled transactions are validly signed, so the validity class of a block does not depend on the '
+                      'receiver\'s mempool; proved for all histories of plain headers: the best chain only holds blocks whose '
                       'stored/served body passed the checks, and every served body was delivered under that hash; rejected '
                       'deliveries that are below the reorganisation margin, share their hash with no valid delivery and are '
                       'nobody\'s parent are as if they had never arrived (same best chain as the run over the valid deliveries '
@@ -63,7 +95,7 @@ SPEC = {
                       'cannot start a reorganisation leaves the best chain unchanged; a valid block whose hash was not seen '
                       'before is never answered "exists" and its body is served; with only valid deliveries and consistent '
                       'heights the model coincides with the chain-selection model of C25 (so C25_converges applies). The Go '
-                      'node agrees with the model on every generated history, and outside the two signatures with the '
+                      'node agrees with the model on every generated history, and outside the four signatures with the '
                       'reference "rejected blocks never arrived"',
         'level_note': 'validity is an oracle; hashes/bodies abstract; fork choice as in C25; finalizer static; capacity '
                       'limits not reached',
@@ -75,25 +107,35 @@ SPEC = {
 
 
 def extra(ctx):
-    """ProcessBlock must not panic (C27_no_panic; finding C27-3 was repaired by the nil-fork guard in connectBestChain).
-    In the generated streams a panic is never the first divergence of a history, so the panics of the whole run are
-    counted here: as long as an entry with code 3 is open they are that known finding, otherwise a violation."""
+    """ProcessBlock must not panic on a block that names a parent (C27_no_panic_partial; finding C27-3 was repaired by the
+    nil-fork guard in connectBestChain). A panic on a block with an EMPTY ParentHash is finding C27-5 (blockExists /
+    getHeaderByIndex); as the first divergence of a history it is classified by check_case, later ones are counted here.
+    Every other panic of the run is a violation (a panic need not be the first divergence of its history)."""
     panics = 0
+    nopar = 0
     first = None
     for c in ctx.cases:
-        for st in c.get('impl', {}).get('steps', []):
+        for st in (c.get('impl', {}).get('steps') or []):
             if st.get('err') == 7:
+                if st.get('nopar'):
+                    nopar += 1
+                    continue
                 panics += 1
                 if first is None:
                     first = c
     known = []
-    res = {'violations': [], 'known': known, 'coverage': {'processblock_panics': panics}}
+    res = {'violations': [], 'known': known, 'coverage': {'processblock_panics': panics, 'processblock_panics_empty_parent': nopar}}
+    path = os.path.join(os.path.dirname(os.path.dirname(os.path.abspath(__file__))), 'known_findings', 'C27.json')
+    findings = json.load(open(path))['findings']
+    if nopar and not [e for e in findings if e.get('code') == 5 and e.get('status') == 'open']:
+        res['violations'].append({'kind': 'failing-input', 'theorem_or_correspondence': 'C27_no_panic_partial (ProcessBlock does not panic)',
+                                  'what': '%d ProcessBlock call(s) on a block with an empty ParentHash panicked and finding 5 is not open' % nopar,
+                                  'case': None})
     if panics:
-        path = os.path.join(os.path.dirname(os.path.dirname(os.path.abspath(__file__))), 'known_findings', 'C27.json')
-        ent = [e for e in json.load(open(path))['findings'] if e.get('code') == 3 and e.get('status') == 'open']
+        ent = [e for e in findings if e.get('code') == 3 and e.get('status') == 'open']
         if ent:
             known.append('KNOWN-FINDING: property=C27 %s [%d panic(s) this run, e.g. case %s]' % (ent[0]['what'], panics, first.get('id')))
         else:
-            res['violations'].append({'kind': 'failing-input', 'theorem_or_correspondence': 'C27_no_panic (ProcessBlock does not panic)',
+            res['violations'].append({'kind': 'failing-input', 'theorem_or_correspondence': 'C27_no_panic_partial (ProcessBlock does not panic)',
                                       'what': '%d ProcessBlock call(s) panicked in this run; first case shown' % panics, 'case': first})
     return res
